@@ -216,7 +216,8 @@ impl Property for C03 {
                     return fail(format!("altered:{slot}:{style}"), format!("comment {text:?} ({slot}) became {:?}\n{src}\n--->\n{}", hits[0], r.text), &o);
                 }
             }
-            if !words_mode && out_comments.len() != list.len() {
+            let known_skipped = o.excluded.iter().any(|x| x.starts_with("known-class:"));
+            if !words_mode && !known_skipped && out_comments.len() != list.len() {
                 return fail("invented".into(), format!("{} comments in the input, {} in the output\n{src}\n--->\n{}", list.len(), out_comments.len(), r.text), &o);
             }
             return o;
